@@ -496,6 +496,75 @@ func genC04(c *Ctx, emit func(class, op string)) {
 			emit("spec-encoder", s.encOp()+" go="+hx(s.encode()))
 		}
 	}
+	// exact fit: small shapes with 1..3 cells, multiple flag set and clear, no padding or one
+	// byte — covers message bits ending exactly on a byte boundary with nothing to spare
+	maxSat, maxSig := c.N(4, 7), c.N(5, 8)
+	for nsat := 1; nsat <= maxSat; nsat++ {
+		for nsig := 1; nsig <= maxSig; nsig++ {
+			for ncell := 1; ncell <= 3 && ncell <= nsat*nsig; ncell++ {
+				for _, seven := range []bool{false, true} {
+					for _, multi := range []bool{false, true} {
+						s := randSpec(r, seven, "empty")
+						s.sats, s.sigs = pickIDs(r, 64, nsat), pickIDs(r, 32, nsig)
+						s.cells = nil
+						pos := r.Perm(nsat * nsig)[:ncell]
+						set := map[int]bool{}
+						for _, q := range pos {
+							set[q] = true
+						}
+						for i := 0; i < nsat; i++ {
+							row := make([]bool, nsig)
+							for j := range row {
+								row[j] = set[i*nsig+j]
+							}
+							s.cells = append(s.cells, row)
+						}
+						sw, ss, gw, gs := s.widths()
+						s.satVals, s.sigVals = nil, nil
+						for i := 0; i < nsat; i++ {
+							var vs []int64
+							for col := range sw {
+								vs = append(vs, fieldVal(r, ss[col], sw[col], 7))
+							}
+							s.satVals = append(s.satVals, vs)
+						}
+						for k := 0; k < ncell; k++ {
+							var vs []int64
+							for col := range gw {
+								vs = append(vs, fieldVal(r, gs[col], gw[col], 7))
+							}
+							s.sigVals = append(s.sigVals, vs)
+						}
+						s.multiple = multi
+						for _, pad := range []int{0, 1} {
+							s.pad = pad
+							emit("exact-fit", s.op(""))
+						}
+					}
+				}
+			}
+		}
+	}
+	// well-formed messages cut short at every byte length from the end of the fixed header
+	// on: the decoders must agree with the model (error or partial decode), never crash
+	for i := 0; i < c.N(12, 200); i++ {
+		s := randSpec(r, i%2 == 0, "random")
+		if len(s.sats) > 6 {
+			s = randSpec(r, i%2 == 0, "8x8")
+		}
+		s.multiple = i%4 < 2 && s.numCells() > 0
+		full := s.encode()
+		if len(full) > 1023 {
+			continue
+		}
+		name := "msm4"
+		if s.seven {
+			name = "msm7"
+		}
+		for n := 22; n < len(full); n++ {
+			emit("cut-short", fmt.Sprintf("%s %s", name, hx(mkFrame(full[:n]))))
+		}
+	}
 	// the same message with every padding 0..30: the result must not depend on it
 	for i := 0; i < c.N(6, 60); i++ {
 		s := randSpec(r, i%2 == 0, "random")
